@@ -182,3 +182,54 @@ Theorem vdataz_fault_inv_satisfiable : exists o s, OInv o s /\ perf (od o) = tru
   length (live s) = 12%nat.
 Proof. exact OInv_satisfiable. Qed.
 Print Assumptions vdataz_fault_inv_satisfiable.
+
+(* ---------------------------------------------------------------- the vnacal_new_t allocation skeleton (Mem/NewAlloc.v) *)
+Require Import LV.Mem.NewAlloc LV.Mem.NewAllocProofs.
+
+(* vnacal_new_set_m_error with any fault point ([s] is arbitrary): completes, every live block is still referred to.
+   PARTIAL: see Properties_C03.v (the other calls of the life cycle are tied, not proved). *)
+Theorem new_merr_fault_clean_partial : forall F v ps a s, Post F v ps s ->
+  exists v' o s', set_m_error NFixed v a s = Ok ((v', o), s') /\ Post F v' ps s'.
+Proof. exact new_merr_fault_clean_lemma. Qed.
+Print Assumptions new_merr_fault_clean_partial.
+
+Theorem new_fault_post_satisfiable : exists v ps s, Post [] v ps s /\ vn_merr v <> None /\ length (live s) = 6%nat.
+Proof. exact NewAllocProofs.new_post_satisfiable. Qed.
+Print Assumptions new_fault_post_satisfiable.
+
+(* atomic when no spline is computed: ENOMEM leaves the structure as it was (with Post: and the ledger) *)
+Theorem new_merr_atomic : forall v a s v' s', (a = MESet 0 \/ a = MEClear \/ a = MEBadCount \/ a = MEInvalid) ->
+  set_m_error NFixed v a s = Ok ((v', Err ENOMEM), s') -> v' = v.
+Proof. exact new_merr_atomic_lemma. Qed.
+Print Assumptions new_merr_atomic.
+
+(* NOT atomic, as coded (each witness is replayed against the library by the tie: the directed history
+   t8_1x1_correlated with every request failing once) *)
+Theorem new_merr_spline_not_atomic_refuted :
+  exists ks ops k w os s, wrun NFixed (mkW (mkprms ks) []) ops (start (Some k)) = Ok ((w, os), s) /\
+    last os Done = Err ENOMEM /\
+    map (fun o => match o with Some v => match vn_merr v with Some _ => true | None => false end | None => false end) (w_new w) = [true].
+Proof. exact new_merr_spline_not_atomic_refuted_lemma. Qed.
+Print Assumptions new_merr_spline_not_atomic_refuted.
+
+Theorem new_add_not_atomic_refuted :
+  exists ks ops k w os s, wrun NFixed (mkW (mkprms ks) []) ops (start (Some k)) = Ok ((w, os), s) /\
+    last os Done = Err ENOMEM /\
+    map (fun o => match o with Some v => (vn_unk v, vn_nmeas v) | None => ([], 0%nat) end) (w_new w) = [([4%nat], 0%nat)].
+Proof. exact new_add_not_atomic_refuted_lemma. Qed.
+Print Assumptions new_add_not_atomic_refuted.
+
+Theorem new_solve_writeback_not_atomic_refuted :
+  exists ks ops k w os s, wrun NFixed (mkW (mkprms ks) []) ops (start (Some k)) = Ok ((w, os), s) /\
+    last os Done = Err ENOMEM /\
+    map (fun p => match pgv p with Some _ => true | None => false end) (w_prm w) = [false; false; false; false; true; false].
+Proof. exact new_solve_writeback_not_atomic_refuted_lemma. Qed.
+Print Assumptions new_solve_writeback_not_atomic_refuted.
+
+(* bug shape of the seeded change C12-9: a hold is left on the correlated parameter when the node of its correlate
+   cannot be allocated; the tree's code gives every hold back *)
+Theorem new_hold_early_leak_refuted :
+  exists ks ops k os held s, whistory NHoldEarly ks ops (start (Some k)) = Ok ((os, held), s) /\ held <> map (fun _ => 0%nat) ks /\
+    exists os' s', whistory NFixed ks ops (start (Some k)) = Ok ((os', map (fun _ => 0%nat) ks), s').
+Proof. exact new_hold_early_leak_refuted_lemma. Qed.
+Print Assumptions new_hold_early_leak_refuted.
